@@ -1162,6 +1162,18 @@ func main() {
 				}
 				continue
 			}
+			if len(f) > 1 && f[1] == "d" {
+				if ds, ok := parseDepart(f[2:]); ok && suite == "depart" {
+					k++
+					tag := fmt.Sprintf("in%d", k)
+					launch(func() { runDepartScript(out, &mu, scratch, tag, ds) })
+				} else if !ok {
+					mu.Lock()
+					out.Line("# skipped malformed-input")
+					mu.Unlock()
+				}
+				continue
+			}
 			s, hd, ok := parseScript(f[1:])
 			if !ok {
 				mu.Lock()
@@ -1215,6 +1227,8 @@ func main() {
 			if suite == "cluster" {
 				s, repin := genClusterScript(r, a.Tier)
 				runClusterScript(out, &mu, scratch, fmt.Sprintf("s%d", k), s, repin)
+			} else if suite == "depart" {
+				runDepartScript(out, &mu, scratch, fmt.Sprintf("s%d", k), genDepartScript(r, k))
 			} else if suite == "join" {
 				runJoinScript(out, &mu, scratch, fmt.Sprintf("s%d", k), genJoinScript(r, k))
 			} else if suite == "conc" {
